@@ -30,23 +30,79 @@ def parse_summary(calls):
     return f
 
 
-@scenario("tnetstring.load.framing", functions=[TN + ":load"], max_unroll=14)
+def sl(vc, x, a, b):
+    """x[a:b] for 0 <= a <= b as a plain substring term (contract-side slices; no Python index clamping needed)"""
+    if vc.mode == "native":
+        return x[a:b]
+    from pyvc.core import ssub, simp, _zi
+    return type(x)(simp(ssub(x.t, simp(_zi(a)), simp(_zi(b) - _zi(a)))))
+
+
+def all_digits(b):
+    """every byte of b is an ASCII decimal digit (b may be empty)"""
+    if is_sym(b):
+        import z3
+        return SBool(z3.InRe(b.t, z3.Star(z3.Range("0", "9"))))
+    return all(48 <= c <= 57 for c in b)
+
+
+def leading_digits(vc, content, pos):
+    """d = number of leading ASCII digits of content[pos:].  Symbolically d is a Skolem constant fixed by its defining
+    property (such a d exists and is unique for every string, so this assumption does not restrict content/pos)."""
+    if vc.mode == "native":
+        d = 0
+        while pos + d < len(content) and 48 <= content[pos + d] <= 57:
+            d += 1
+        return d
+    d = vc.sym_int("n_leading_digits", lo=0)
+    vc.assume(pos + d <= len_(content))
+    vc.assume(all_digits(sl(vc, content, pos, pos + d)))
+    vc.assume(Or(pos + d == len_(content), Not(is_digit_code(code_at(content, pos + d)))))
+    return d
+
+
+def digit_prefix_lemma(vc, content, pos, a, b):
+    """Valid string lemma, instantiated at the terms a, b (sound for arbitrary integer terms): if content[pos:pos+b] is
+    all digits and 0 <= a < b then byte pos+a exists and is a digit."""
+    if vc.mode == "native":
+        return
+    vc.assume(Implies(And(all_digits(sl(vc, content, pos, pos + b)), a >= 0, a < b, pos + b <= len_(content)),
+                      is_digit_code(code_at(content, pos + a))))
+    vc.note("lemma", "digit-prefix: s[:b] all digits and 0<=a<b<=len(s) => s[a] is a digit (instantiated per term pair)")
+
+
+def inv_load(vc, seen, content, pos):
+    """loop invariant of `while c.isdigit()` in tnetstring.load: data_length is the k <= 12 digits read so far, c is the
+    next byte (or b"" at EOF), the file position is just behind c."""
+
+    def inv(it, env, idx):
+        fo, dl, c = env["file_handle"], env["data_length"], env["c"]
+        k = len_(dl)
+        seen.append(k)
+        return And(k <= 12, pos + k <= len_(content), dl == sl(vc, content, pos, pos + k), all_digits(dl),
+                   c == sl(vc, content, pos + k, pos + k + 1), fo.pos == pos + k + len_(c), fo.content == content, fo.closed == False)  # noqa: E712
+
+    inv.havoc_fields = [lambda it, env: (env["file_handle"], "pos")]
+    return inv
+
+
+@scenario("tnetstring.load.framing", functions=[TN + ":load"], pc_slices=True)
 def s_load(vc):
-    content = vc.sym_bytes("content")
-    pos = vc.sym_int("pos", lo=0)
+    content = vc.sym_bytes("file_bytes")     # NB: symbol names must differ from the code's local/field names (havoc reuses those)
+    pos = vc.sym_int("start", lo=0)
     vc.assume(pos <= len_(content))
-    s = content[pos:]
-    L = len_(s)
-    d = vc.case("ndigits", list(range(0, 14)))          # number of leading decimal digits of s (13 = "13 or more")
-    vc.assume(L >= d)
-    for k in range(d):
-        vc.assume(is_digit_code(code_at(s, k)))
-    if d <= 12:
-        vc.assume(Or(L == d, Not(is_digit_code(code_at(s, d)))))
+    L = len_(content) - pos
+    d = leading_digits(vc, content, pos)
     fo = mk_file(vc, content, pos)
     calls = []
     vc.summary(TN + ":parse", parse_summary(calls))
+    seen = []
+    vc.invariant(TN + ":load", 1, inv_load(vc, seen, content, pos))
     out = vc.call(TN + ":load", fo)
+    if vc.mode == "sym" and len(seen) >= 2:
+        k = seen[1]
+        digit_prefix_lemma(vc, content, pos, k, d)
+        digit_prefix_lemma(vc, content, pos, d, k)
     # frame: load only reads
     vc.ensure("frame.content_unchanged", And(fo.content == content, len_(fo.ops) == 0))
     if vc.branch(L == 0):
@@ -57,7 +113,7 @@ def s_load(vc):
         return
     if not out.ok and out.raised_type() is ValueError:
         vc.ensure("nonempty.never_reports_empty_file", exc_msg(vc, out.raised) != EMPTY_MSG)
-    if d == 0 or d == 13:
+    if vc.branch(Or(d == 0, d >= 13)):
         # no length prefix / absurdly long prefix: never a value
         vc.ensure("badprefix.raises_valueerror", (not out.ok) and out.raised_type() is ValueError)
         vc.ensure("badprefix.no_parse", len(calls) == 0)
@@ -67,11 +123,11 @@ def s_load(vc):
         vc.ensure("cut_in_prefix.raises_valueerror", (not out.ok) and out.raised_type() is ValueError)
         vc.ensure("cut_in_prefix.no_parse", len(calls) == 0)
         return
-    if vc.branch(code_at(s, d) != 58):
+    if vc.branch(code_at(content, pos + d) != 58):
         vc.ensure("nocolon.raises_valueerror", (not out.ok) and out.raised_type() is ValueError)
         vc.ensure("nocolon.no_parse", len(calls) == 0)
         return
-    n = to_int(vc, s[:d])
+    n = to_int(vc, sl(vc, content, pos, pos + d))
     if vc.branch(L < d + n + 2):
         # cut inside payload or before the tag byte: proper prefix of a record
         vc.ensure("cut_in_record.raises_indexerror", (not out.ok) and out.raised_type() is IndexError)
@@ -83,9 +139,9 @@ def s_load(vc):
     if len(calls) != 1 or not out.ok:
         return
     tag, payload = calls[0]
-    vc.ensure("complete.payload_exact", payload == s[d + 1:d + 1 + n])
+    vc.ensure("complete.payload_exact", payload == sl(vc, content, pos + d + 1, pos + d + 1 + n))
     vc.ensure("complete.payload_full_length", len_(payload) == n)
-    vc.ensure("complete.tag", tag == code_at(s, d + 1 + n))
+    vc.ensure("complete.tag", tag == code_at(content, pos + d + 1 + n))
     vc.ensure("complete.pos_after_record", fo.pos == pos + d + n + 2)
     vc.ensure("complete.pos_inside_file", fo.pos <= len_(content))
     vc.ensure("complete.result_is_parse_result", is_parsed(out.result, tag, payload))
